@@ -45,13 +45,10 @@ theorem rep_initialR (a : AbstractModel) (h : WF a = true) (ρ : Redundant)
     r.bones, r.mats⟩
 
 theorem starts_initialR (a : AbstractModel) (h : WF a = true) (hcan : Canonical a = true)
-    (ρ : Redundant) (hlc : ρ.fileLodCount a.lodCount = a.lodCount) (v : View)
-    (hv : view a = some v) : StartsFromSubmesh (parsedR a ρ v) := by
+    (ρ : Redundant) (v : View) (hv : view a = some v) : StartsFromSubmesh (parsedR a ρ v) := by
   have s := starts_initial a h hcan v hv
   intro i hi d hd
-  have hi' : i < a.lodCount.toNat := by
-    have : (parsedR a ρ v).fileHeader.lodCount = a.lodCount := hlc
-    rw [this] at hi; exact hi
+  have hi' : i < (parsedOf a v).lods.length := hi
   obtain ⟨e1, e2⟩ := lodAt_redundant ρ (modelData a).lods i
   have hd' : d < (lodAt (parsedOf a v).modelData.lods i).meshCount.toNat := by
     have : (lodAt (parsedR a ρ v).modelData.lods i).meshCount =
@@ -107,11 +104,10 @@ theorem edit_then_parseR (a : AbstractModel) (h : WF a = true) (hcan : Canonical
         headerFlags m1.fileHeader buf.length m1.lods = HeaderFlags.allOk) := by
   have hrep0 : Rep a (parsedR a ρ v0) := rep_initialR a h ρ hlc v0 hv0
   have hlc0 : (parsedR a ρ v0).fileHeader.lodCount = a.lodCount := hlc
-  have hdis : RangesDisjoint (parsedR a ρ v0).modelData.lods
-      (parsedR a ρ v0).fileHeader.lodCount.toNat := by
-    rw [hlc0]; exact rep_rangesDisjoint h hrep0
+  have hdis : RangesDisjoint (parsedR a ρ v0).modelData.lods (parsedR a ρ v0).lods.length :=
+    rep_rangesDisjoint' h hrep0
   obtain ⟨hrep, hsm⟩ := rep_history2 es a a' (parsedR a ρ v0) mE ces
-    (small_of_wf a h) hrep0 (starts_initialR a h hcan ρ hlc v0 hv0) hdis hes ha' hces hE
+    (small_of_wf a h) hrep0 (starts_initialR a h hcan ρ v0 hv0) hdis hes ha' hces hE
   have hlca : a'.lodCount = a.lodCount := by
     have e1 : mE.fileHeader.lodCount = a'.lodCount := (congrArg FileHeader.lodCount hrep.fh :)
     have e2 := (history_frame ces (parsedR a ρ v0) mE hE).lodCount
@@ -142,7 +138,7 @@ theorem edits_return_initialR (a : AbstractModel) (h : WF a = true) (hcan : Cano
   have hrep0 : Rep a (parsedR a ρ v0) := rep_initialR a h ρ hlc v0 hv0
   have hlc0 : (parsedR a ρ v0).fileHeader.lodCount = a.lodCount := hlc
   exact edits_return es a a' (parsedR a ρ v0) ces (small_of_wf a h) (wf_facts a h).lods3 hrep0
-    (starts_initialR a h hcan ρ hlc v0 hv0) (by rw [hlc0]; exact rep_rangesDisjoint h hrep0)
+    (starts_initialR a h hcan ρ v0 hv0) (rep_rangesDisjoint' h hrep0)
     hes hfit ha' hces
 
 end Physis.Mdl
